@@ -183,7 +183,8 @@ static bool toon_safe_string(const jsoncons::string_view& s, bool is_key) {
     }
     return true;
 }
-template <class Json> static bool toon_safe(const Json& v, int array_depth = 0, bool in_array = false) {
+// direct_depth: number of arrays enclosing v without an object in between (T4 is about arrays nested directly)
+template <class Json> static bool toon_safe(const Json& v, int array_depth = 0, bool in_array = false, int direct_depth = 0) {
     if (v.is_string()) return toon_safe_string(v.as_string_view(), false);
     if (v.type() == json_type::float64) { double d = v.template as<double>(); double a = d < 0 ? -d : d; return a == 0 || (a >= 1e-6 && a < 9e15); }      // T3 / T9
     if (v.is_object()) {
@@ -193,13 +194,15 @@ template <class Json> static bool toon_safe(const Json& v, int array_depth = 0, 
             if (array_depth > 0 && !toon_simple_key(m.key())) return false;                                                                  // T2: field names that need quoting in (tabular) arrays of objects
             if (m.value().is_array() && !toon_simple_key(m.key())) return false;                                                              // T5: quoted key followed by an array header
             if (in_array && m.value().is_object()) return false;                                                                               // T6: object-valued member of a list-item object
-            if (in_array && m.value().is_array()) { for (const auto& e : m.value().array_range()) if (e.is_object()) return false; }                // T6: tabular array nested in a list item
-            if (!toon_safe(m.value(), array_depth, false)) return false; }
+            if (in_array && m.value().is_array()) { for (const auto& e : m.value().array_range()) { if (e.is_object()) return false;                // T6: tabular array nested in a list item
+                                                        if (e.is_array()) for (const auto& x : e.array_range()) if (x.is_array() || x.is_object()) return false; }   // arrays of primitive arrays only (deeper mixes fail like T4/T6)
+                                                      size_t na = 0; for (const auto& e : m.value().array_range()) if (e.is_array()) ++na; if (na != 0 && na != m.value().size()) return false; }   // ... and not mixed with primitives
+            if (!toon_safe(m.value(), array_depth, false, 0)) return false; }
         return true;
     }
-    if (v.is_array()) { if (v.empty() && in_array) return false; if (array_depth >= 2) return false;                                            // T4: arrays nested three deep
+    if (v.is_array()) { if (v.empty() && in_array) return false; if (direct_depth >= 2) return false;                                            // T4: arrays nested three deep
                                                                                      // T4: empty array as an array element
-        for (const auto& e : v.array_range()) { if (array_depth >= 1 && e.is_object()) return false; if (!toon_safe(e, array_depth + 1, true)) return false; } return true; }
+        for (const auto& e : v.array_range()) { if (array_depth >= 1 && e.is_object()) return false; if (!toon_safe(e, array_depth + 1, true, direct_depth + 1)) return false; } return true; }
     return true;
 }
 struct ToonWitness { const char* id; const char* json_text; };
